@@ -1,6 +1,6 @@
 INIT Init
 NEXT Next
-CONSTANTS W8 = {1, 33, 63, 64, 65, 128, 129, 256, 400, 475, 476, 500}
-          W16 = {1, 33, 63, 64, 65, 128, 129, 512, 700, 987, 988, 1012}
+CONSTANTS W8 = {1, 33, 63, 64, 65, 128, 129, 256, 400, 438, 475, 476, 500}
+          W16 = {1, 33, 63, 64, 65, 128, 129, 512, 700, 950, 987, 988, 1012}
 INVARIANT Emit
 CHECK_DEADLOCK FALSE
